@@ -39,7 +39,7 @@ struct Family { std::string name; uint64_t count; std::function<std::string(uint
 
 struct Corpus {
   std::vector<Family> fams; std::vector<uint64_t> prefix; uint64_t total = 0;
-  ExprSets E;  // F1 expressions
+  ExprSets E, E3;  // F1 expressions (<=2 operators), F1k3 (3 operators, reduced leaves)
   void add(Family f) { prefix.push_back(total); total += f.count; fams.push_back(std::move(f)); }
   std::string make(uint64_t idx, std::string *shape = nullptr, std::string *family = nullptr) const {
     size_t i = std::upper_bound(prefix.begin(), prefix.end(), idx) - prefix.begin() - 1;
@@ -101,6 +101,15 @@ struct Corpus {
       if (!thorough && kk == 2 && ci >= 4 && ci != 12 && ci != 15) continue;
       add({"F1:" + std::string(cx.name) + ":k" + std::to_string(kk), (uint64_t)lst->size(),
            [lst, &cx](uint64_t i, std::string *shape) { if (shape) *shape = std::string(cx.name) + ":" + (*lst)[i].shape; return cx.prog((*lst)[i].s); }});
+    }
+    // ------------------------------------------------------------ F1k3 (thorough): three operators over a reduced leaf set, key contexts
+    if (thorough) {
+      E3.build(3, {il[0], il[6], il[7], il[12], il[14]}, {bl[0], bl[2]});
+      for (size_t ci : {(size_t)0, (size_t)1, (size_t)3, (size_t)4, (size_t)12, (size_t)13, (size_t)15, (size_t)18}) {
+        const Ctx &cx = ctxs[ci];
+        const std::vector<TExpr> *lst = cx.wantBool ? &E3.bools[3] : &E3.ints[3];
+        add({"F1k3:" + std::string(cx.name) + ":k3", (uint64_t)lst->size(), [lst, &cx](uint64_t i, std::string *shape) { if (shape) *shape = std::string(cx.name) + ":" + (*lst)[i].shape; return cx.prog((*lst)[i].s); }});
+      }
     }
     // ------------------------------------------------------------ F2: call shapes
     {
@@ -175,6 +184,26 @@ struct Corpus {
         for (auto &c : {std::string("y < 2"), std::string("(y < 3) and (x < 9)")}) for (auto &A : (*lists)[s - 1]) out.push_back("while " + c + " do { " + A + "; y := y + 1 }");
         // sequence A ; B
         for (int i = 1; i <= s - 1; i++) { int j = s - i; if (j < 1 || i + j != s) continue; if (i > 1) continue; for (auto &A : (*lists)[i]) for (auto &B : (*lists)[j]) { if (out.size() > (thorough ? 3000000u : 400000u)) break; out.push_back("{ " + A + "; " + B + " }"); } }
+      }
+      // statements inside a FUNCTION body, with `return` atoms at every nesting position (branch to the exit label from inside if/while/sequence)
+      {
+        static const std::vector<std::string> fatoms = {"skip", "x := x + 1", "g := g + x", "return x", "return g + (x + 1)", "return w(x)", "cnt()", "a[i] := x"};
+        static const std::vector<std::string> fconds = {"true", "false", "x < 7", "w(x) = 6", "(x < 8) and (g > x)"};
+        auto fl = std::make_shared<std::vector<std::vector<std::string>>>();
+        int maxF = thorough ? 4 : 3; fl->resize(maxF + 1); (*fl)[1] = fatoms;
+        for (int s2 = 2; s2 <= maxF; s2++) {
+          auto &out = (*fl)[s2];
+          for (int i = 1; i <= s2 - 2; i++) { int j = s2 - 1 - i; if (j < 1) continue; for (auto &c : fconds) for (auto &A : (*fl)[i]) for (auto &B : (*fl)[j]) out.push_back("if " + c + " then " + A + " else " + B); }
+          for (auto &A : (*fl)[s2 - 1]) out.push_back("while y < 2 do { " + A + "; y := y + 1 }");
+          for (auto &A : (*fl)[1]) for (auto &B : (*fl)[s2 - 1]) out.push_back("{ " + A + "; " + B + " }");
+        }
+        for (int s2 = 1; s2 <= maxF; s2++)
+          add({"F3f:func-body:size" + std::to_string(s2), (uint64_t)(*fl)[s2].size(), [fl, s2](uint64_t i, std::string *shape) {
+                 if (shape) { const std::string &t = (*fl)[s2][i]; *shape = "func-body:" + t.substr(0, t.find(' ')); }
+                 return "var g; var n; array a[4];\nproc cnt() is n := n + 1\nfunc w(val q) is var k; { k := q + 1; return k }\n"
+                        "func t(val p, val x0) is var x; var i; var y;\n{ x := x0; i := 2; y := 0;\n  " + (*fl)[s2][i] + ";\n  return (y + y) + (x + 100) }\n"
+                        "proc main() is var r; { g := 6; n := 0; a[2] := 0; r := t(1, 5) + t(2, 5); 1(r, 0); 1(g + '0', 0); 1(n + '0', 0); 1(a[2] + '0', 0); 0(r) }\n";
+               }});
       }
       // the same statements in a program whose procedures all return (main included): exercises epilogues and the exit stub
       for (int s = 1; s <= std::min(maxS, 4); s++) {
